@@ -7,13 +7,19 @@
     most [length xs + 1] times (explicit demand and fuel bounds); (3) for an unbounded input cut
     by a take, the iterator is advanced at most n times.  What ties this to the crate: the
     correspondence run of every check (real pipelines, for_each and a completion probe, against
-    [run_pipe]: arguments of f in order, Iterator::next calls, completion).  NOT proved: that the
-    composition of the callbag models of Ops.v refines [run_pipe] for arbitrary nesting depth
-    (the per-stage contracts are C07/C14/C15); that step is validated by the correspondence run
-    only - hence "partial" in the manifest. *)
+    [run_pipe]: arguments of f in order, Iterator::next calls, completion).
+    (4) For the callbag models of Ops.v themselves, wired into a net (Chain.v): the safety half for
+    pipelines and trees (what has been delivered at rest is the list function of what was consumed),
+    and - Liveness.v - the liveness half for linear pipelines of map/filter/scan/take/skip over a
+    finite input: applying for_each makes the net run by itself to rest in a bounded number of
+    steps, for_each has then seen the end, and f was called on the list function of the WHOLE input
+    ([C06_pipeline_completes]).  NOT proved: the liveness half for pipelines with concat! or flatten
+    stages and for unbounded inputs cut by a take (validated by the correspondence run only) -
+    hence "partial" in the manifest. *)
 From CB Require Import Pipe PipeCorrect.
 From CB Require Import ProofLib Spec Chain Programs Inv_for_each.
 From CB Require Import Chain Programs Tree TreePrograms TreeFunctional Order_nary Inv_for_each.
+From CB Require Import Flow Wire2 Liveness PipeNet.
 From Coq Require Import List Arith.
 Import ListNotations.
 
@@ -121,3 +127,57 @@ Theorem C06_prog_src (ts : list tnode) (es : list edge) (N : tnet)
 Proof. exact (@prog_src ts es N Hok Hes Hsink Hr i n it). Qed.
 Print Assumptions C06_prog_src.
 
+
+(** ** "... and then completes without stalling" (Liveness.v): linear pipelines of map/filter/scan/take/skip
+    (take counts >= 1) over any finite input, as nets of the component models *)
+
+(** every message crosses a link exactly once, in order, in both directions (at most one in flight) *)
+Theorem C06_wire_faithful (sigs : list (op * mparams * (mstate -> input -> bool)))
+  (Hsafe : forall s, In s sigs -> safe_sig s) (Hreg : forall i s, nth_error sigs i = Some s -> regime_ok i s)
+  ns N :
+    map nsig ns = sigs -> (forall n, In n ns -> ninit n) ->
+    net_reach (net0 ns) N -> wire2_ok (nodes N) (pend N).
+Proof. exact (@chain_wire2 sigs Hsafe Hreg ns N). Qed.
+Print Assumptions C06_wire_faithful.
+
+(** once for_each is applied the net comes to rest by itself, after at most [steps_max] transfers;
+    [crun] = the states after that one environment move and internal transfers only *)
+Theorem C06_pipeline_terminates (xs : list val) (stages : list ustage) :
+  Forall ustage_ok stages ->
+  exists m, m <= steps_max xs stages /\ crun xs stages (taus m (net_step (NP xs stages) (kick stages))) /\
+            pend (taus m (net_step (NP xs stages) (kick stages))) = PIdle.
+Proof. exact (@terminates xs stages). Qed.
+Print Assumptions C06_pipeline_terminates.
+
+(** ... and whenever such a run is at rest, for_each has received the end of the stream *)
+Theorem C06_rest_means_done (xs : list val) (stages : list ustage) :
+  Forall ustage_ok stages ->
+  forall N, crun xs stages N -> pend N = PIdle ->
+  forall nl, nth_error (nodes N) (Liveness.last stages) = Some nl -> us (nms nl) 0 = UEnded.
+Proof. exact (@rest_done xs stages). Qed.
+Print Assumptions C06_rest_means_done.
+
+(** the whole of C06 for these pipelines: the run is finite, ends with for_each having seen the end,
+    and f has been called on exactly the list function of the whole input, in order *)
+Theorem C06_pipeline_completes (xs : list val) (stages : list ustage) :
+  Forall ustage_ok stages ->
+  exists m N, m <= steps_max xs stages /\ N = taus m (net_step (NP xs stages) (kick stages)) /\
+    net_reach (NP xs stages) N /\ pend N = PIdle /\ gst N = [] /\
+    exists nf, nth_error (nodes N) (Liveness.last stages) = Some nf /\
+      us (nms nf) 0 = UEnded /\ user_calls (ntrace nf) = usem stages xs.
+Proof. exact (@pipeline_completes xs stages). Qed.
+Print Assumptions C06_pipeline_completes.
+
+(** the same for the first-order stage descriptions the harness builds on the real crate: the
+    extracted runner the correspondence check executes returns the list function, completion, rest *)
+Theorem C06_net_pipe_run_correct p xs us :
+  ustages_of p = Some us ->
+  Forall (fun s => match s with StTake n => 1 <= n | _ => True end) p ->
+  exists nx, net_pipe_run p xs = Some (sem p xs, nx, true, true).
+Proof. exact (@net_pipe_run_correct p xs us). Qed.
+Print Assumptions C06_net_pipe_run_correct.
+
+Theorem C06_net_pipe_run_example :
+  net_pipe_run [StMap 1 1; StFilter 2 0; StTake 2] [1; 2; 3; 4; 5] = Some ([2; 4], 3, true, true).
+Proof. exact net_pipe_run_example. Qed.
+Print Assumptions C06_net_pipe_run_example.
